@@ -2632,7 +2632,12 @@ fn delegation_case(case: u64, rng: &mut Rng, st: &mut Stats) {
                             }
                         }
                     }
-                    // ... nor more of any element both of them are shown (field mask)
+                    // ... nor more of any element both of them are shown (field mask); FIND answers
+                    // only: they carry the redacted views themselves, where a capsule or a history
+                    // entry may describe an element it does not show by a record of another shape
+                    if !q.cmd.starts_with("FIND") {
+                        continue;
+                    }
                     let (mut vd, mut vl) = (BTreeMap::new(), BTreeMap::new());
                     views_in(&a_del["results"][0]["result"], &mut vd);
                     views_in(&a_lead["results"][0]["result"], &mut vl);
